@@ -1,7 +1,7 @@
 SPECIFICATION Spec
 CONSTANTS
-  FileSet <- FilesF2
-  QuerySeq <- QueriesFq
+  CaseSet <- CasesF2
+  QueriesOf <- QOf
   StarFix = TRUE
   SubjectFix = FALSE
   CAListsPlain = TRUE
